@@ -7,6 +7,7 @@ import Req.C02.H1Full
 import Req.C02.H3Recv
 import Req.C02.H2Recv
 import Req.C02.H2Repair
+import Req.C02.TrailerMap
 import Req.C02.ReadLine
 import Req.C02.DataBuffer
 /-! Driver lanes of C02. -/
@@ -386,6 +387,29 @@ def laneDataBuf : List String → String
     | _, _, _ => "bad-op"
   | _ => "bad-op"
 
+/-- a `Response.Trailer` map with its nil-valued keys: `hex(k)=hex(v)|hex(v)` / `hex(k)=nil`,
+sorted by key -/
+def tmapStr (m : Req.H1.HeaderMap) : String :=
+  if m.isEmpty then "-" else
+  let ents : List (Bytes × Bytes) := m.map fun (k, vs) =>
+    (k, (if vs.isEmpty then "nil" else "|".intercalate (vs.map encodeHex)).toUTF8.toList)
+  ",".intercalate ((sortKV ents).map fun (k, v) => encodeHex k ++ "=" ++ toStr v)
+
+/-- `c02trailermap <proto 1|2|3> <announced keys> <got 0|1> <received fields>` → the map:
+HTTP/1.1 and HTTP/2 merge the received fields into the announced keys, HTTP/3 replaces the map
+when a trailer section arrived (`got`).  Keys are canonicalised as the readers do. -/
+def laneTrailerMap : List String → String
+  | [proto, decl, got, recv] =>
+    match decodeList decl, decodeFields recv with
+    | some decl, some recv =>
+      let decl := decl.map Req.Ascii.canonicalMIMEHeaderKey
+      let recv := recv.map fun (k, v) => (Req.Ascii.canonicalMIMEHeaderKey k, v)
+      if proto == "1" || proto == "2" then tmapStr (trailerMapMerged decl recv)
+      else if proto == "3" then tmapStr (trailerMapH3 decl (if got == "1" then some recv else none))
+      else "bad-op"
+    | _, _ => "bad-op"
+  | _ => "bad-op"
+
 def lanes : List (String × (List String → String)) := [
   ("c02call", laneCall),
   ("c02ops", laneOps),
@@ -395,7 +419,8 @@ def lanes : List (String × (List String → String)) := [
   ("c02h1full", laneH1Full),
   ("c02h1body", laneH1Body),
   ("c02h1line", laneH1Line),
-  ("c02databuf", laneDataBuf)
+  ("c02databuf", laneDataBuf),
+  ("c02trailermap", laneTrailerMap)
 ]
 
 end Req.Driver.L.C02
